@@ -7,8 +7,10 @@ wrap-around, bool), coordinate labels (partial, mixed presence, shifted / permut
 broadcasting shapes, tuple axes, zero extents, 0-d and NumPy-scalar indices, NumPy-integer dims, method="sel", a
 missing `dim`, mixed ndarray / DataArray arguments, Datasets whose variables differ in dims and dtype, a decoy axis
 with several arguments, stack onto an existing / concat along a missing dimension."""
-from ekw.c15_real import (ALL_OPS, BINARY, REDUCTIONS, VARIADIC, fenc, flat as _flat, map_vals as _map_vals,
-                          shape_of as _shape_of)
+import numpy as _np
+
+from ekw.c15_real import (ALL_OPS, BINARY, COMPLEX, DT_NP, FLOATS, FL_NARROW, INEXACT, INT_RANGE, REDUCTIONS, VARIADIC, fenc,
+                          flat as _flat, map_vals as _map_vals, shape_of as _shape_of)
 
 # ----------------------------------------------------------------------------- generator
 
@@ -405,7 +407,29 @@ def derived_legacy(case):
 # second generation
 # ======================================================================================================================
 
-DTYPES2 = ["f64", "f64", "f64", "i32", "u8", "bool", "i64"]
+DTYPES2 = ["f64", "f64", "f64", "i32", "u8", "bool", "i64",
+           # third generation (second audit): the rest of NumPy's numeric dtypes
+           "f32", "f32", "f16", "i8", "i16", "u16", "u32", "u64", "c64", "c128"]
+NEW_DTYPES = ["f32", "f16", "i8", "i16", "u16", "u32", "u64", "c64", "c128"]
+# values whose float32 / float16 sums and products round (given as doubles; rounded to the dtype when drawn)
+F32_ROUND = [0.1, 0.2, 0.3, 1.0 / 3.0, 2.0 ** 24, 2.0 ** 24 + 2, -2.0 ** 24, 3.3, 1e-3, 7.7, 1.0, -1.0, 0.7, 1e8, 16777217.0, 1e-30]
+F16_ROUND = [0.1, 0.2, 0.3, 1.0 / 3.0, 2048.0, 2050.0, -2048.0, 3.3, 1e-3, 7.7, 1.0, -1.0, 0.7, 1000.0, 4096.0, 6e-8]
+
+
+def _narrow(dt, x):
+    """the value of dtype dt nearest to x, as a Python float (exactly representable in dt)"""
+    with _np.errstate(all="ignore"):
+        return fenc(float(DT_NP[dt](x)))
+
+
+def _limits_val(rng, dt):
+    lo, hi = INT_RANGE[dt]
+    r = rng.random()
+    if r < 0.45:
+        return rng.randint(max(lo, -4), 4)
+    if r < 0.8:
+        return rng.choice([hi - rng.randint(0, 3), lo + rng.randint(0, 3), hi // 2 + rng.randint(0, 2), (hi // 2 + 1) + rng.randint(0, 2)])
+    return rng.randint(max(lo, -70000), min(hi, 70000))
 F_ROUND = [0.1, 0.2, 0.3, 1.0 / 3.0, 1e16, -1e16, 2.0 ** 53, 2.0 ** 53 + 2, 3.3, 1e-3, 7.7, 1.0, -1.0, 0.7, 1e-300, 5e-324, 1e300]
 
 
@@ -421,8 +445,39 @@ def _val(rng, dt, flavour="int", op=None):
         if r < 0.8:
             return rng.choice([1, -1]) * (2 ** 31 - 1 - rng.randint(0, 3)) if rng.random() < 0.7 else -2 ** 31
         return rng.randint(-70000, 70000)
-    if dt in ("i64", "u64"):
-        return rng.randint(0 if dt == "u64" else -4, 4)
+    if dt == "i64":
+        return rng.randint(-4, 4)
+    if dt in INT_RANGE:               # i8 i16 u16 u32 u64: small, near the limits and the sign bit (wrap-around), anything
+        return _limits_val(rng, dt)
+    if dt in COMPLEX:
+        # small integers and dyadic parts (sums and products are exact); NaN / inf parts only as flavour "special"
+        # (products: integer parts only, and no NaN / inf -- a product of six such numbers is exact in complex64, so that
+        # the batch law is not disturbed by rounding, for which complex data has no rounding-only verdict)
+        part = lambda: rng.randint(-4, 4) / (1.0 if op == "prod" else rng.choice([1.0, 1.0, 2.0, 4.0]))
+        if flavour == "special" and op != "prod" and rng.random() < 0.2:
+            return fenc(complex(rng.choice([float("nan"), float("inf"), -float("inf"), part()]), rng.choice([float("nan"), float("inf"), part()])))
+        return fenc(complex(part(), part()))
+    if dt in FL_NARROW:
+        if flavour == "int":
+            return float(rng.randint(-4, 4))
+        if flavour == "dyadic":
+            return rng.randint(-32, 32) / 8.0
+        if flavour == "special":
+            r = rng.random()
+            if r < 0.12:
+                return "nan"
+            if r < 0.2:
+                return rng.choice(["inf", "-inf"])
+            return rng.randint(-16, 16) / 4.0
+        tab = F32_ROUND if dt == "f32" else F16_ROUND
+        if op == "prod":
+            # (a product of six stays finite: overflow in one order only is not "rounding only")
+            if rng.random() < 0.45:
+                return _narrow(dt, rng.choice([0.1, 0.2, 0.3, 1.0 / 3.0, 3.3, 1e-3, 1.0, -1.0, 0.7, -2.5] + ([7.7, 1e6] if dt == "f32" else [])))
+            return _narrow(dt, rng.uniform(-3, 3))
+        if rng.random() < 0.45:
+            return _narrow(dt, rng.choice(tab))
+        return _narrow(dt, rng.uniform(-10, 10) * 10.0 ** rng.randint(-3, 6 if dt == "f32" else 2))
     # f64
     if flavour == "int":
         return float(rng.randint(-4, 4))
@@ -458,7 +513,9 @@ def _numel2(sh):
 
 
 def _flavour(rng, dt):
-    return rng.choice(["int", "dyadic", "round", "round", "special", "special"]) if dt == "f64" else "int"
+    if dt in COMPLEX:
+        return rng.choice(["int", "int", "special"])
+    return rng.choice(["int", "dyadic", "round", "round", "special", "special"]) if dt in FLOATS else "int"
 
 
 def retype(rng, case, dt=None, flavour=None):
@@ -471,7 +528,7 @@ def retype(rng, case, dt=None, flavour=None):
     c = dict(case)
     c.pop("big", None)
     c["dtype"] = dt
-    c["fam"] = "dtype:" + dt + (":" + flavour if dt == "f64" else "")
+    c["fam"] = "dtype:" + dt + (":" + flavour if dt in INEXACT else "")
     k = len(case["args"])
     py = [None] * k
     if op in BINARY:
@@ -486,6 +543,15 @@ def retype(rng, case, dt=None, flavour=None):
                 case = dict(case)
                 case["args2"] = [a if isinstance(a, list) else _rand(rng, sh, 0, 1) for a in case["args2"]]
             py = [None] * k
+        elif dt in COMPLEX and op == "pow":
+            # `ndarray ** 2` / `** 0.5` take NumPy's square / sqrt fast path, which for complex data differs from
+            # numpy.power in the last bit: both are "the value NumPy gives"; only array exponents are generated
+            sh = _shape_of(next(a for a in case["args"] if isinstance(a, list)))
+            c["args"] = [a if isinstance(a, list) else _rand(rng, sh, 0, 3) for a in case["args"]]
+            if case.get("args2"):
+                case = dict(case)
+                case["args2"] = [a if isinstance(a, list) else _rand(rng, sh, 0, 3) for a in case["args2"]]
+            py = [None] * k
         elif any(py) and rng.random() < 0.4:
             py = ["float" if p else None for p in py]
     c["py"] = py
@@ -493,10 +559,12 @@ def retype(rng, case, dt=None, flavour=None):
     def newval(i, v):
         if py[i] == "int":
             if op == "pow" and i == 1:
-                return rng.choice([0, 1, 2, 3, 3, -1 if dt != "u8" else 2])
+                return rng.choice([0, 1, 2, 3, 3, -1 if dt not in ("u8", "u16", "u32", "u64") else 2])
             if dt in ("u8", "i32") and rng.random() < 0.12:
                 return rng.choice([256, -1, 300] if dt == "u8" else [2 ** 31, -2 ** 31 - 1])        # does not fit the dtype
-            if dt == "f64":
+            if dt in INT_RANGE and dt != "i64" and rng.random() < 0.12:
+                return rng.choice([INT_RANGE[dt][1] + 1, INT_RANGE[dt][0] - 1, INT_RANGE[dt][1] + 44])   # does not fit the dtype
+            if dt in INEXACT:
                 return rng.randint(-4, 4)
             return _val(rng, dt)
         if py[i] == "float":
@@ -505,10 +573,12 @@ def retype(rng, case, dt=None, flavour=None):
             return rng.choice([0.5, -1.5, 2.0, 0.1, 3.0])
         if op == "pow":
             if i == 1:
-                if dt == "f64":
+                if dt in FLOATS:
                     return float(rng.randint(-2, 3))
-                return rng.choice([0, 1, 2, 3]) if rng.random() < 0.96 or dt == "u8" else -1
-            if dt == "f64":
+                if dt in COMPLEX:
+                    return fenc(complex(rng.randint(0, 3), 0.0))
+                return rng.choice([0, 1, 2, 3]) if rng.random() < 0.96 or dt in ("u8", "u16", "u32", "u64") else -1
+            if dt in FLOATS:
                 return rng.choice([0.5, 2.0, -2.0, 1.5, 3.0, -0.75, 0.25, 10.0, 7.0, 1.25])
         return _val(rng, dt, flavour, op)
 
@@ -522,11 +592,11 @@ def retype(rng, case, dt=None, flavour=None):
             if py[i]:
                 c["args2"][i] = c["args"][i]
     if c.get("args2") and rng.random() < 0.3 and op not in ("pow",) and dt != "bool":
-        c["dtype2"] = rng.choice([d for d in ("f64", "i64", "i32", "u8") if d != dt])
+        c["dtype2"] = rng.choice([d for d in ("f64", "i64", "i32", "u8", "f32", "i16", "u32") if d != dt])
         fl2 = _flavour(rng, c["dtype2"])
         c["args2"] = [a if py[i] else _map_vals(a, lambda v: _val(rng, c["dtype2"], fl2, op)) for i, a in enumerate(c["args2"])]
     # float64 values that round: keep to the forms whose order of additions the model knows
-    if dt == "f64" and flavour == "round" or (c.get("dtype2") == "f64"):
+    if dt in FLOATS and flavour == "round" or (c.get("dtype2") in FLOATS):
         if isinstance(c.get("axis"), list):
             c["approx"] = True
     if op in ("var", "std") and isinstance(c.get("axis"), list):
@@ -596,7 +666,7 @@ def gen_take2(rng, backend=None):
     sh = [rng.randint(1, 3) for _ in range(nd)]
     ax = rng.randrange(nd)
     n = sh[ax]
-    dt = rng.choice(["i64", "f64", "u8", "i32", "bool"])
+    dt = rng.choice(["i64", "f64", "u8", "i32", "bool"] + NEW_DTYPES)
     c = {"op": "take", "backend": be, "dtype": dt, "args": [_fill(rng, sh, dt, _flavour(rng, dt))], "axis": ax if rng.random() < 0.7 else ax - nd}
     variant = rng.choice(["0d", "npint-index", "npint-dim", "absent", "name-on-np", "sel", "sel", "labels", "labels", "empty", "sel-missing"])
     c["dimkind"] = "int"
@@ -652,6 +722,10 @@ def gen_take2(rng, backend=None):
         sh2 = [m for j, m in enumerate(sh) if j != drop]
         c["args2"] = [_fill(rng, sh2, dt2, _flavour(rng, dt2))]
     c["fam"] = "take:" + variant
+    # (second audit) the integer dtype of an ndarray / NumPy-scalar index: unsigned dtypes cannot hold a negative index
+    if c["index_type"] in ("ndarray", "ndarray0d", "npint") and not c.get("method"):
+        neg = any(v < 0 for v in _flat(c["index"]))
+        c["index_dtype"] = rng.choice(["i8", "i16", "i32", "i64"] if neg else ["i8", "u8", "i16", "u16", "i32", "u32", "i64", "u64", "u64"])
     return c
 
 
@@ -677,8 +751,8 @@ def gen_broadcast(rng, op=None, backend=None):
     shs = _bshapes(rng, k)
     if rng.random() < 0.12:
         shs[rng.randrange(k)] = [rng.randint(2, 3) + 3]          # incompatible
-    dt = rng.choice(["i64", "f64", "i64", "u8"])
-    fl = rng.choice(["int", "dyadic"]) if dt == "f64" else "int"
+    dt = rng.choice(["i64", "f64", "i64", "u8", "f32", "f16", "i16", "u64", "c64"])
+    fl = rng.choice(["int", "dyadic"]) if dt in FLOATS else "int"
     args = [_fill(rng, s, dt, fl) for s in shs]
     if op == "pow":
         dt = "i64"
@@ -712,8 +786,8 @@ def gen_axes(rng, op=None, backend=None):
     be = backend or rng.choice(["np", "np", "da", "ds"])
     nd = rng.randint(1, 3)
     sh = rng.sample([1, 2, 3, 4], nd)
-    dt = rng.choice(["i64", "f64", "u8", "i32", "bool"])
-    fl = rng.choice(["int", "dyadic", "special"]) if dt == "f64" else "int"
+    dt = rng.choice(["i64", "f64", "u8", "i32", "bool", "f32", "f16", "i8", "u16", "u32", "c128"])
+    fl = rng.choice(["int", "dyadic", "special"]) if dt in FLOATS else "int"
     axes = rng.sample(range(nd), rng.randint(0, nd))
     axes = [a - nd if rng.random() < 0.3 else a for a in axes]
     c = {"op": op, "backend": be, "dtype": dt, "args": [_fill(rng, sh, dt, fl, op)], "axis": axes, "fam": "axes"}
@@ -740,7 +814,7 @@ def gen_empty(rng, op=None, backend=None):
     sh = [rng.randint(1, 3) for _ in range(nd)]
     z = rng.randrange(nd)
     sh[z] = 0
-    dt = rng.choice(["i64", "f64", "u8"])
+    dt = rng.choice(["i64", "f64", "u8", "f32", "i8", "u64", "c64"])
     k = 1 if op == "take" else 2 if op in BINARY else rng.randint(1, 3)
     shs = [list(sh) for _ in range(k)]
     c = {"op": op, "backend": be, "dtype": dt, "fam": "empty:" + op, "py": [None] * k}
@@ -800,8 +874,8 @@ def gen_decoy(rng, backend=None):
     nd = rng.randint(1, 3)
     sh = [rng.randint(1, 3) for _ in range(nd)]
     k = rng.randint(2, 4)
-    dt = rng.choice(["i64", "f64"])
-    fl = rng.choice(["int", "dyadic", "special"]) if dt == "f64" else "int"
+    dt = rng.choice(["i64", "f64", "f32", "i16"])
+    fl = rng.choice(["int", "dyadic", "special"]) if dt in FLOATS else "int"
     c = {"op": op, "backend": be, "dtype": dt, "args": [_fill(rng, sh, dt, fl, op) for _ in range(k)],
          "axis": rng.randrange(nd), "style": "dim" if be == "ds" and rng.random() < 0.5 else rng.choice(["axis", "dim"]) if be != "np" else "axis",
          "fam": "decoy-axis"}
@@ -832,8 +906,8 @@ def gen_ds_dims(rng, op=None):
     sh = rng.sample([1, 2, 3, 4], nd)
     drop = rng.randrange(nd)
     sh2 = [m for j, m in enumerate(sh) if j != drop]
-    dt, dt2 = rng.choice(["i64", "f64", "u8"]), rng.choice(["i64", "f64", "i32"])
-    fl = lambda d: rng.choice(["int", "dyadic", "special"]) if d == "f64" else "int"
+    dt, dt2 = rng.choice(["i64", "f64", "u8", "f32", "u16"]), rng.choice(["i64", "f64", "i32", "f16", "i8", "c64"])
+    fl = lambda d: rng.choice(["int", "dyadic", "special"]) if d in FLOATS else "int"
     k = 2 if op in BINARY else rng.randint(1, 3)
     c = {"op": op, "backend": "ds", "dtype": dt, "dtype2": dt2, "v_drop": drop, "fam": "ds-dims:" + op, "py": [None] * k}
     f1, f2 = fl(dt), fl(dt2)
@@ -877,11 +951,11 @@ def gen_batch(rng, op=None, backend=None, dt=None, flavour=None):
     c = gen_case(rng, op, be)
     while len(c["args"]) < 3:
         c = gen_case(rng, op, be)
-    dt = dt or rng.choice(["f64", "f64", "f64", "u8", "i32", "bool", "i64"])
-    c = retype(rng, c, dt, flavour or (rng.choice(["round", "round", "special", "dyadic"]) if dt == "f64" else None))
+    dt = dt or rng.choice(["f64", "f64", "f64", "u8", "i32", "bool", "i64", "f32", "f32", "f16"] + NEW_DTYPES)
+    c = retype(rng, c, dt, flavour or (rng.choice(["round", "round", "special", "dyadic"]) if dt in FLOATS else "int" if dt in COMPLEX else None))
     c.pop("dtype2", None)
     if c.get("args2"):
-        c["args2"] = [_map_vals(a, lambda v: _val(rng, dt, "round" if dt == "f64" else "int", op)) for a in c["args2"]]
+        c["args2"] = [_map_vals(a, lambda v: _val(rng, dt, "round" if dt in FLOATS else "int", op)) for a in c["args2"]]
     c["fam"] = "batch:" + dt
     return c
 
@@ -917,6 +991,22 @@ def witnesses():
         {"op": "take", "backend": "np", "dtype": "i64", "args": [[[0, 1, 2], [3, 4, 5]]], "axis": 1, "dimkind": "npint", "index": 1, "index_type": "int", "fam": "witness"},
         {"op": "take", "backend": "da", "dtype": "i64", "args": [[[0, 1, 2], [3, 4, 5]]], "axis": 1, "dimkind": "npint", "index": 1, "index_type": "int", "fam": "witness"},
     ]
+    # second audit, probe 5(a): float32 / float16 data is reduced in its own dtype (NumPy: float32 in, float32 out, every
+    # addition rounded to float32: 2^24 + 1 + 1 = 2^24), on every container; uint64 / int8 indices
+    p24 = 2.0 ** 24
+    for be in ("np", "da", "ds"):
+        for op in ("sum", "mean", "prod"):
+            w = {"op": op, "backend": be, "dtype": "f32", "args": [[p24, 0.1], [1.0, 0.1], [1.0, 0.3]], "axis": None, "fam": "witness"}
+            w1 = {"op": op, "backend": be, "dtype": "f32", "args": [[p24, 1.0, 1.0, 0.1, 0.2, 0.3]], "axis": None, "fam": "witness"}
+            w2 = {"op": op, "backend": be, "dtype": "f16", "args": [[2048.0, 0.1], [1.0, 0.1], [1.0, 0.3]], "axis": None, "fam": "witness"}
+            for x in (w, w1, w2):
+                if be == "ds":
+                    x["args2"] = x["args"]
+                out.append(x)
+    for idt, it in (("u64", "ndarray"), ("u64", "npint"), ("i8", "ndarray"), ("u8", "ndarray0d")):
+        for be in ("np", "da"):
+            out.append({"op": "take", "backend": be, "dtype": "i64", "args": [[[0, 1, 2], [3, 4, 5]]], "axis": 1, "dimkind": "int",
+                        "index": [2, 0] if it == "ndarray" else 2, "index_type": it, "index_dtype": idt, "fam": "witness"})
     # xarray: an empty list of dimensions leaves the dtype (known finding)
     out.append({"op": "mean", "backend": "da", "dtype": "i32", "args": [[[3, -2]]], "axis": [], "style": "dim", "fam": "witness"})
     # the literal reading: two vectors in two singleton batches (c15_literal_full_fails), and one batch holding everything
